@@ -69,7 +69,7 @@ class NoiseDriver:
         if st['impl'] == 'full' and len(f) == 0:
             raise Divergence(where + ': number of frequencies', '>= 1', 0)
         want_rms = RMS if st['rmsmode'] == 'rms' else float(np.sqrt(scipy.constants.k * TEMP * RES * (fmax - fmin)))
-        if abs(nz.rms - want_rms) > 1e-12 * want_rms:
+        if not (abs(nz.rms - want_rms) <= 1e-12 * want_rms):
             raise Divergence(where + ': rms', want_rms, nz.rms)
         if st['amp'] == 'const' and len(f) and not np.all((a == 1.0) | (f == 0)):
             raise Divergence(where + ': amplitudes', 'the constant given (0 at DC)', list(a[:6]))
@@ -84,7 +84,7 @@ class NoiseDriver:
             per = st['uniq'] * st['n']
             v = np.asarray(nz.with_times((W0 + 2 * np.arange(per)) * TICK).values, dtype=float)
             got = float(np.sqrt(np.mean(v ** 2)))
-            if abs(got - want_rms) > 1e-9 * want_rms:
+            if not (abs(got - want_rms) <= 1e-9 * want_rms):
                 raise Divergence(where + ': rms of the waveform over one period (unit amplitudes)', want_rms, got)
 
     def F(self, b, tk):
@@ -151,7 +151,7 @@ class NoiseDriver:
             mask = np.ones(len(tk), dtype=bool) if st['impl'] == 'full' else ((tk - o['delay'] - W0) % 2 == 0)
             self.samples += int(np.sum(mask))
             err = np.abs(v - want) * mask
-            if np.any(err > TOL * max(scale, 1e-300)):
+            if not np.all(err <= TOL * max(scale, 1e-300)):
                 k = int(np.argmax(err))
                 raise Divergence(where + ': sample %d (tick %d) vs the sum of the published cosines' % (k, tk[k]), float(want[k]), float(v[k]))
             shown[i] = (o['basis'], want, scale)
